@@ -193,7 +193,13 @@ def gen_ct(rng, n, n_sk):
              {"fn": "ct", "ops": [["RZ", [PI / 4], [0]], ["RX", [PI], [0]], ["RY", [2.0], [0]]], "eps": 1e-6, "method": "gridsynth"},
              {"fn": "ct", "ops": [["RZ", [5e-7], [0]]], "eps": 1e-7, "method": "gridsynth"},   # below _simplify_param's atol
              {"fn": "ct", "ops": [["PhaseShift", [3 * PI / 4], [0]]], "eps": 1e-3, "method": "gridsynth"},   # T-shortcut of _rot_decompose
-             {"fn": "ct", "ops": [["RX", [0.4], [0]]], "eps": 1e-1, "method": "sk"}]
+             {"fn": "ct", "ops": [["RX", [0.4], [0]]], "eps": 1e-1, "method": "sk"},
+             # history: the module-level decomposition cache filled at a loose epsilon must not serve a tighter request (and vice versa)
+             {"fn": "ct", "ops": [["RZ", [0.7391], [0]]], "eps": 1e-2, "method": "gridsynth"},
+             {"fn": "ct", "ops": [["RZ", [0.7391], [0]]], "eps": 1e-5, "method": "gridsynth", "keep_cache": True},
+             {"fn": "ct", "ops": [["RZ", [0.7391], [0]]], "eps": 1e-3, "method": "gridsynth", "keep_cache": True},
+             {"fn": "ct", "ops": [["RX", [1.1], [0]], ["CNOT", [], [0, 1]], ["RY", [2.2], [1]]], "eps": 1e-1, "method": "gridsynth"},
+             {"fn": "ct", "ops": [["RX", [1.1], [0]], ["CNOT", [], [0, 1]], ["RY", [2.2], [1]]], "eps": 1e-4, "method": "gridsynth", "keep_cache": True}]
     k = 0
     while len(cases) < n + n_sk:
         sk = k < n_sk - 1
